@@ -159,6 +159,12 @@ func runFanout(rc *RunCtx, o fanOpts) {
 	desc := &fanDesc{Nodes: map[string]string{}, Pipelines: map[string][]string{}}
 	rc.Desc = desc
 
+	// the Broker's clock may be stopped: events then carry exactly that instant
+	if tp.Choose(4, "stoptime") == 0 {
+		stopped := time.Date(2031, 5, 6, 7, 8, 9, 10+tp.Choose(1000, "ns"), time.UTC)
+		broker.StopTimeAt(stopped)
+		h.stoppedAt = stopped
+	}
 	nTypes := 1 + tp.Choose(3, "ntypes")
 	types := []string{"ta", "tb", "tc"}[:nTypes]
 	desc.Types = types
